@@ -14,7 +14,7 @@ HARNESSES = {
     "C10": ["c10_partial_cmp_and_cmp_kernels", "c10_cmp_transitive"],
     "C09": ["c09_must_explore_kernel"],
     "C18": ["c18_threshold_max_kernel"],
-    "C11": ["c11_maxub_kernel"],
+    "C11": ["c11_maxub_kernel", "c11_simple_fringe_three_pushes"],
 }
 FUNCS = {
     "c17_gap_all_pairs": "ddo::Solver::gap (default method, stub solver exposing arbitrary lb <= ub; full 64-bit range, IEEE f32)",
@@ -26,6 +26,7 @@ FUNCS = {
     "c09_must_explore_kernel": "ddo::Cache::must_explore default method over an arbitrary Option<Threshold>",
     "c18_threshold_max_kernel": "derived Ord of ddo::Threshold (max)",
     "c11_maxub_kernel": "ddo::MaxUB::compare",
+    "c11_simple_fringe_three_pushes": "ddo::SimpleFringe<MaxUB<_>>::{new, push, pop, len} over binary-heap-plus, three pushes with arbitrary 64-bit (ub, value), unwind 9",
 }
 
 
